@@ -403,6 +403,8 @@ func c11Stream(r *hx.Rand, tier string, n int, w *bufio.Writer) map[string]int {
 	// source-traced flows: both routers, with and without request-object support
 	srcBeds := []*c11SrcBed{c11NewSrcBed("provider", true), c11NewSrcBed("legacy", true), c11NewSrcBed("provider", false), c11NewSrcBed("legacy", false)}
 
+	c11ParPreamble(r, tier, w, stats, bed) // the situation of F-C11e (fixed), once per run whatever the seed draws
+
 	for caseNo := 0; caseNo < n; caseNo++ {
 		kind := hx.Pick(r, "url", "url", "url", "form", "form", "code", "code", "token", "error", "error", "tryerror", "flow", "src", "src", "src", "seq", "par")
 		mode := modes[r.Intn(len(modes))]
